@@ -1,5 +1,6 @@
 """Instance enumeration helpers shared by the family checks (drive only)."""
 import itertools
+from .exc import exc_name
 
 
 def simple_graphs(n):
@@ -164,7 +165,7 @@ def build(rec_id, fam, par, thunk, graph=None, extra=None):
     try:
         F = _call(thunk)
     except Exception as e:  # the outcome is judged by the specification
-        rec["outcome"] = type(e).__name__
+        rec["outcome"] = exc_name(e)
         rec["nvars"] = 0
         rec["cls"] = "CNF"
         rec["clauses"] = []
